@@ -91,6 +91,64 @@ theorem strongGraph_hasStrong (epsSq : K) (A : CRS K) (i : Nat) (hi : i < A.nrow
   unfold strongRow
   simp [List.any_map, Function.comp_def]
 
+/-- the strength test of plain_aggregates.hpp:136 for the stored entry `cv` of row `i` -/
+def strongFlag (epsSq : K) (A : CRS K) (i : Nat) (cv : Nat × K) : Bool :=
+  decide (cv.1 ≠ i) && decide (epsSq * (diagonal A).getD i 0 * (diagonal A).getD cv.1 0 < cv.2 * cv.2)
+
+theorem aggregates_partition_graph (G : SGraph) (count : Nat) (id : Array Int)
+    (h : aggregatesOfGraph G = .ok (count, id)) :
+    id.size = G.size ∧
+    (∀ i, i < G.size →
+      (G.hasStrong i = false → id.getD i 0 = -2) ∧
+      (G.hasStrong i = true → 0 ≤ id.getD i 0 ∧ id.getD i 0 < (count : Int))) ∧
+    (∀ a, a < count → ∃ i, i < G.size ∧ id.getD i 0 = (a : Int)) := by
+  obtain ⟨hpos, heq⟩ := aggregatesOfGraph_ok G count id h
+  obtain ⟨hsz, hsp⟩ := aggregateIds_spec G
+  obtain ⟨h1, h2, h3, h4, _⟩ := renumber_partition _ hpos _ (idsOK_aggregateIds G)
+  have hc : count = (renumber (aggregateIds G).1 (aggregateIds G).2).1 := congrArg Prod.fst heq
+  have hi : id = (renumber (aggregateIds G).1 (aggregateIds G).2).2 := congrArg Prod.snd heq
+  subst hc hi
+  rw [hsz] at h1 h2 h3 h4
+  refine ⟨h1, fun i hi => ⟨fun hs => h2 i hi ((hsp i hi).1 hs), fun hs => h3 i hi ((hsp i hi).2 hs).1⟩, h4⟩
+
+theorem plainAggregates_spec (epsSq : K) (A : CRS K) (agg : Aggregates)
+    (h : plainAggregates epsSq A = .ok agg) :
+    agg.strong = strongConnections epsSq A ∧
+    (∀ i, i < A.nrows → agg.strong.getD i [] = (A.row i).map (strongFlag epsSq A i)) ∧
+    agg.id.size = A.nrows ∧
+    (∀ i, i < A.nrows →
+      ((agg.strong.getD i []).any id = false → agg.id.getD i 0 = -2) ∧
+      ((agg.strong.getD i []).any id = true → 0 ≤ agg.id.getD i 0 ∧ agg.id.getD i 0 < (agg.count : Int))) ∧
+    (∀ a, a < agg.count → ∃ i, i < A.nrows ∧ agg.id.getD i 0 = (a : Int)) := by
+  unfold plainAggregates at h
+  simp only at h
+  split at h
+  · rename_i ci hci
+    injection h with h
+    subst h
+    simp only
+    obtain ⟨h1, h2, h3⟩ := aggregates_partition_graph _ ci.1 ci.2 hci
+    rw [zipGraph_size] at h1 h2 h3
+    refine ⟨trivial, fun i hi => ?_, h1, fun i hi => ?_, h3⟩
+    · rw [strongConnections_getD epsSq A i hi]; rfl
+    · rw [← strongGraph_hasStrong epsSq A i hi]; exact h2 i hi
+  · exact absurd h (by simp)
+  · exact absurd h (by simp)
+
+theorem plainAggregates_count_lt (epsSq : K) (A : CRS K) (hA : A.WF) (hsq : A.ncols = A.nrows) (agg : Aggregates)
+    (h : plainAggregates epsSq A = .ok agg) : agg.count < A.nrows := by
+  unfold plainAggregates at h
+  simp only at h
+  split at h
+  · rename_i ci hci
+    injection h with h
+    subst h
+    simp only
+    have := count_lt_size _ (zipGraph_wf A hA hsq _) (strongGraph_offDiag epsSq A) ci.1 ci.2 hci
+    rwa [zipGraph_size] at this
+  · exact absurd h (by simp)
+  · exact absurd h (by simp)
+
 end strength
 end Coarsening
 end Amgcl
